@@ -17,7 +17,7 @@ pub struct BudgetExceeded {
 #[derive(Debug, Clone)]
 pub struct ContractViolation(pub String);
 
-pub const N_PROBES: usize = 43;
+pub const N_PROBES: usize = 44;
 
 #[derive(Clone, Copy, Debug, PartialEq, Eq)]
 #[repr(usize)]
@@ -66,6 +66,7 @@ pub enum Probe {
     NestedDecodeInRead,
     NestedDecodeInTrap,
     NestedParse,
+    TrapShrinksOutput,
 }
 
 pub const PROBE_NAMES: [&str; N_PROBES] = [
@@ -112,12 +113,13 @@ pub const PROBE_NAMES: [&str; N_PROBES] = [
     "nested_decode_from_reader",
     "nested_decode_from_trap_callback",
     "nested_parse_from_input_seam",
+    "trap_continue_after_shrinking_output",
 ];
 
 /// Which probes count as *injected faults* (reported under fault_counts) as opposed to
 /// rare-condition probes.
 pub fn is_fault(p: usize) -> bool {
-    const F: [Probe; 20] = [
+    const F: [Probe; 21] = [
         Probe::BreakPushedBack,
         Probe::BreakLeftUnconsumed,
         Probe::SourceEofEarly,
@@ -138,6 +140,7 @@ pub fn is_fault(p: usize) -> bool {
         Probe::NestedDecodeInRead,
         Probe::NestedDecodeInTrap,
         Probe::NestedParse,
+        Probe::TrapShrinksOutput,
     ];
     F.iter().any(|f| *f as usize == p)
 }
